@@ -264,6 +264,22 @@ Proof.
     cat_list. app_norm. apply sl_0_from. lia.
 Qed.
 
+Lemma sack_gaps_zlen n : forall rem acc fs rem', sack_gaps n rem acc = (fs, rem') ->
+  zlen rem' = Z.max 0 (zlen rem - 32 * Z.of_nat n).
+Proof.
+  induction n as [|n IH]; intros rem acc fs rem' H; cbn [sack_gaps] in H.
+  - inversion H. subst. pose proof (zlen_nonneg rem'). lia.
+  - apply IH in H. rewrite H, zlen_sl_from by lia. pose proof (zlen_nonneg rem). lia.
+Qed.
+
+Lemma sack_dups_zlen n : forall rem acc fs rem', sack_dups n rem acc = (fs, rem') ->
+  zlen rem' = Z.max 0 (zlen rem - 32 * Z.of_nat n).
+Proof.
+  induction n as [|n IH]; intros rem acc fs rem' H; cbn [sack_dups] in H.
+  - inversion H. subst. pose proof (zlen_nonneg rem'). lia.
+  - apply IH in H. rewrite H, zlen_sl_from by lia. pose proof (zlen_nonneg rem). lia.
+Qed.
+
 Lemma parse_chunk_value_post t v : post (parse_chunk_value t v) (fun fs => cat fs = v).
 Proof.
   unfold parse_chunk_value.
@@ -277,8 +293,14 @@ Proof.
     cat_list. app_norm. sl_join. apply sl_0_from. lia. }
   destruct (t =? 3).
   { cbv zeta.
+    pose proof (Z_of_bits_range (sl v 64 80)) as Rg. pose proof (Z_of_bits_range (sl v 80 96)) as Rd.
+    destruct (Z.eqb_spec (zlen (sl_from v 96)) (32 * (Z_of_bits (sl v 64 80) + Z_of_bits (sl v 80 96)))) as [Hsz|];
+      cbn [negb]; [|exact I].
     destruct (sack_gaps _ _ _) as [fs1 rem1] eqn:G. destruct (sack_dups _ _ _) as [fs2 rem2] eqn:D.
-    destruct (Z.ltb_spec 0 (zlen rem2)) as [|Hz]; [exact I|]. cbn [post].
+    cbn [post].
+    pose proof (sack_gaps_zlen _ _ _ _ _ G) as Zg. pose proof (sack_dups_zlen _ _ _ _ _ D) as Zd.
+    rewrite Zg, Hsz, !Z2Nat.id in Zd by lia.
+    assert (Hz : zlen rem2 <= 0) by lia.
     apply sack_gaps_cat in G. apply sack_dups_cat in D.
     rewrite (zlen_0_nil rem2 Hz), app_nil_r in D. rewrite D, G.
     cat_list. app_norm. sl_join. apply sl_0_from. lia. }
@@ -339,14 +361,6 @@ Theorem sctp_total b : parser_outcome (parse_sctp b).
 Proof. eapply post_outcome, parse_sctp_post. Qed.
 
 (* ---- UDP, IPv6, IPv4 --------------------------------------------------------------------------- *)
-Ltac header_cat :=
-  match goal with |- context [Ok (?fs, ?n)] =>
-    let Hc := fresh "Hc" in assert (Hc : cat fs = sl _ 0 n) by fixed_cat end.
-
-Lemma post_tiles_weaken (r : res hdesc) b (Q : hdesc -> Prop) :
-  post r (tiles b) -> post r (fun h => tiles b h /\ True).
-Proof. intros H. eapply post_weaken; [exact H|]. auto. Qed.
-
 Lemma parse_udp_post pr b : post (parse_udp pr b) (tiles b).
 Proof.
   unfold parse_udp. destruct (Z.ltb_spec (zlen b) 64) as [|Hl]; [exact I|]. cbv zeta.
@@ -429,9 +443,3 @@ Theorem packet_tiles s b fs pl : factory s b = Ok (fs, pl) -> concat (map f_val 
 Proof. intros H. exact (post_ok _ _ _ (factory_post s b) H). Qed.
 Theorem factory_total s b : parser_outcome (factory s b).
 Proof. eapply post_outcome, factory_post. Qed.
-
-Print Assumptions coap_tiles. Print Assumptions sctp_tiles. Print Assumptions udp_tiles.
-Print Assumptions ipv6_tiles. Print Assumptions ipv4_tiles. Print Assumptions packet_tiles.
-Print Assumptions tiles_length. Print Assumptions coap_total. Print Assumptions sctp_total.
-Print Assumptions udp_total. Print Assumptions ipv6_total. Print Assumptions ipv4_total.
-Print Assumptions factory_total.
